@@ -230,6 +230,29 @@ pub fn family(kind: usize, n: usize) -> String {
             let c = G[(n / (G.len() * G.len())) % G.len()];
             format!("main:\n    addi sp, sp, {a}\n    sw a0, {b}(sp)\n    addi sp, sp, {c}\n    lw a1, {b}(sp)\n    sw a1, {c}(sp)\n    addi sp, sp, {a}\n    li a7, 10\n    ecall\n")
         }
+        19 => {
+            // a run of one character (every character of the table in turn), alone on a line of a small program
+            let c = CHAR_TABLE[n % CHAR_TABLE.len()];
+            let len = [1usize, 40, 3000, 40_000][(n / CHAR_TABLE.len()) % 4];
+            let run: String = std::iter::repeat(c).take(len).collect();
+            format!("main:\n    li a0, 1\n{run}\n    li a7, 10\n    ecall\n")
+        }
+        20 => {
+            // a long line whose tail is made of multi-byte characters, with a diagnostic on it (unused value)
+            const MB: [char; 4] = ['\u{e9}', '\u{20ac}', '\u{1f600}', '\u{3000}'];
+            let c = MB[n % MB.len()];
+            let pad = (n / MB.len()) % 5;
+            let len = [30usize, 100, 157, 200, 1000][(n / (MB.len() * 5)) % 5];
+            let tail: String = std::iter::repeat(c).take(len).collect();
+            format!("main:\n{}addi t0, zero, 1 # {tail}\n    li a7, 10\n    ecall\n", " ".repeat(pad))
+        }
+        21 => {
+            // a run of one token (every word, literal and punctuation of the tables in turn) on one line
+            let all: Vec<&str> = WORDS.iter().chain(LITERALS.iter()).chain(PUNCT.iter()).copied().collect();
+            let t = all[n % all.len()];
+            let len = [2usize, 50, 5000][(n / all.len()) % 3];
+            format!("main:\n    {}\n    li a7, 10\n    ecall\n", vec![t; len].join(" "))
+        }
         _ => {
             // lines with Unicode white space in front of, inside and after the statement
             const WS: [char; 7] = ['\u{a0}', '\u{2003}', '\u{3000}', '\u{1680}', '\u{85}', '\u{2028}', '\u{feff}'];
@@ -251,7 +274,7 @@ pub fn family(kind: usize, n: usize) -> String {
     }
 }
 
-pub const N_FAMILIES: usize = 19;
+pub const N_FAMILIES: usize = 22;
 
 #[derive(Clone, Debug)]
 pub struct HostileCase {
